@@ -9,7 +9,7 @@ from ..env import L
 from ..lib import F, Q
 
 U_ = ref.U
-EPS = float(np.finfo(float).eps)
+EPS = float(np.finfo(float).tiny)   # degenerate pair: norm not safely normalisable (exact zero in practice)
 
 
 def blocked_from_first_col(G, r):
@@ -89,7 +89,7 @@ def check_pair(case):
     v = np.array([x1[0], x2[0], x1[1], x2[1], x1[2], x2[2], x1[3], x2[3]])
     w = G.T @ v
     if t <= EPS:
-        out.label("degenerate(t<=eps)")
+        out.label("degenerate(t<=tiny)")
         out.equal_bits("ggivens:identity for degenerate pair", G, np.eye(8))
     else:
         target = np.zeros(8)
